@@ -153,27 +153,30 @@ Definition groups_ok (g : groups) : Prop :=
   (forall n ms, In (n, ms) g -> n <> [] /\ n <> K1 /\ n <> K2) /\
   NoDup (members_of K1 g) /\ NoDup (members_of K2 g).
 
-(** ** make_unique_group_name (src/upconversion.rs) *)
+(** ** make_unique_group_name (src/upconversion.rs, since 3ac97c0) *)
+(** a candidate is taken if it is a group name or a kerning key of the side ([kk]) *)
+Definition taken (g : groups) (kk : list name) (n : name) : bool := has_key n g || memb n kk.
 (** the [while] loop: candidate [base ++ dec c], c = 1, 2, ...; [None] = fuel exhausted *)
-Fixpoint uniq_loop (fuel : nat) (base : name) (c : N) (g : groups) : option name :=
+Fixpoint uniq_loop (fuel : nat) (base : name) (c : N) (g : groups) (kk : list name) : option name :=
   match fuel with
   | O => None
   | S f => let cand := base ++ dec c in
-           if has_key cand g then uniq_loop f base (c + 1) g else Some cand
+           if taken g kk cand then uniq_loop f base (c + 1) g kk else Some cand
   end.
-Definition make_unique_fuel (fuel : nat) (base : name) (g : groups) : option name :=
-  if has_key base g then uniq_loop fuel base 1 g else Some base.
-Definition make_unique (base : name) (g : groups) : option name :=
-  make_unique_fuel (S (length g)) base g.
+Definition make_unique_fuel (fuel : nat) (base : name) (g : groups) (kk : list name) : option name :=
+  if taken g kk base then uniq_loop fuel base 1 g kk else Some base.
+Definition make_unique (base : name) (g : groups) (kk : list name) : option name :=
+  make_unique_fuel (S (length g + length kk)) base g kk.
 
-(** what the loop is meant to return: a name not in use that is [base] itself or, when [base]
-    is taken, [base ++ dec d] for the least d >= 1 whose candidate is free *)
-Definition UniqueOf (base : name) (g : groups) (n : name) : Prop :=
-  ~ In n (map fst g) /\
+(** what the loop is meant to return: a name not in use ([used] = group names and kerning keys
+    of the side) that is [base] itself or, when [base] is taken, [base ++ dec d] for the least
+    d >= 1 whose candidate is free *)
+Definition UniqueOf (base : name) (used : list name) (n : name) : Prop :=
+  ~ In n used /\
   (n = base \/
-   (In base (map fst g) /\
+   (In base used /\
     exists d, 1 <= d /\ n = base ++ dec d /\
-              forall e, 1 <= e < d -> In (base ++ dec e) (map fst g))).
+              forall e, 1 <= e < d -> In (base ++ dec e) used)).
 
 (** ** find_known_kerning_groups + the scan over the kerning pairs *)
 Definition known1 (g : groups) : list name :=
@@ -196,17 +199,17 @@ Definition cands2 (g : groups) (k : kerning) (gs : list name) : list name :=
     queried with [get]) *)
 Definition rentab := list (name * name).
 
-Fixpoint dup_side (pre pat : str) (cs : list name) (gn : groups) (r : rentab)
+Fixpoint dup_side (pre pat : str) (kk : list name) (cs : list name) (gn : groups) (r : rentab)
   : result (groups * rentab) unit :=
   match cs with
   | [] => Ok (gn, r)
   | c :: cs' =>
-      match make_unique (pre ++ remove_all pat c) gn with
+      match make_unique (pre ++ remove_all pat c) gn kk with
       | None => Panic 1                      (* loop fuel; unreachable: C15_unique_terminates *)
       | Some nn =>
           match lookup c gn with
           | None => Panic 2                  (* groups_new.get(first).unwrap() *)
-          | Some ms => dup_side pre pat cs' (minsert nn ms gn) ((c, nn) :: r)
+          | Some ms => dup_side pre pat kk cs' (minsert nn ms gn) ((c, nn) :: r)
           end
       end
   end.
@@ -219,19 +222,23 @@ Definition rename_row (r2 : rentab) (row : smap val) : smap val :=
 Definition rename_kerning (r1 r2 : rentab) (k : kerning) : kerning :=
   fold_left (fun acc e => minsert (ren r1 (fst e)) (rename_row r2 (snd e)) acc) k [].
 
+(** the kerning keys of the two sides (BTreeSets, only asked [contains]) *)
+Definition kerning_firsts (k : kerning) : list name := keys k.
+Definition kerning_seconds (k : kerning) : list name := concat (map (fun e => keys (snd e)) k).
+
 (** the two tables the conversion builds *)
 Definition upconvert_tables (g : groups) (k : kerning) (gs : list name)
   : result (groups * rentab * rentab) unit :=
-  match dup_side K1 MMKL (cands1 g k gs) g [] with
+  match dup_side K1 MMKL (kerning_firsts k) (cands1 g k gs) g [] with
   | Ok (g1, r1) =>
-      match dup_side K2 MMKR (cands2 g k gs) g1 [] with
+      match dup_side K2 MMKR (kerning_seconds k) (cands2 g k gs) g1 [] with
       | Ok (g2, r2) => Ok (g2, r1, r2)
       | Err e => Err e | Panic s => Panic s
       end
   | Err e => Err e | Panic s => Panic s
   end.
 
-(** upconvert_kerning(groups, kerning, glyph_set); [gs] is the content of the NameList *)
+(** upconvert_kerning(groups, kerning, glyph_set); [gs] is the content of the NameList handed in *)
 Definition upconvert_kerning (g : groups) (k : kerning) (gs : list name)
   : result (groups * kerning) unit :=
   match upconvert_tables g k gs with
@@ -283,34 +290,16 @@ Definition Upconverted (g : groups) (k : kerning) (glyphs : list name)
            (g' : groups) (k' : kerning) : Prop :=
   exists r1 r2, UpconvertedGroups g k glyphs r1 r2 g' /\ PairsRenamed r1 r2 k k'.
 
-(** ** the class in which the pair part fails (observation "PairCollision"): after renaming,
-    two first-level kerning keys, or two keys of one row, coincide - only possible when a
-    kerning key that is NOT a converted group equals a freshly made group name.
-    [kerning_new.insert] / [seconds_new.insert] then overwrite. *)
+(** ** no two kerning keys coincide after renaming (an invariant since 3ac97c0: the new group
+    names avoid the kerning keys of their side; before, [kerning_new.insert] could overwrite) *)
 Fixpoint nodupb (l : list name) : bool :=
   match l with [] => true | x :: r => negb (memb x r) && nodupb r end.
 Definition no_pair_collision (r1 r2 : rentab) (k : kerning) : bool :=
   nodupb (map (ren r1) (keys k)) &&
   forallb (fun e => nodupb (map (ren r2) (keys (snd e)))) k.
-Definition PairCollision (g : groups) (k : kerning) (gs : list name) : Prop :=
-  match upconvert_tables g k gs with
-  | Ok (_, r1, r2) => no_pair_collision r1 r2 k = false
-  | _ => False
-  end.
-
-(** ** the class in which the conversion is not the one the glyph names demand (F21): the
-    name set handed to upconvert_kerning is the interner's content, not the glyph names; the
-    groups to duplicate then differ. *)
-Definition SameCands (g : groups) (k : kerning) (a b : list name) : Prop :=
-  (forall c, Cand1 g k a c <-> Cand1 g k b c) /\
-  (forall c, Cand2 g k a c <-> Cand2 g k b c).
-Definition ClassF21 (g : groups) (k : kerning) (interned glyphs : list name) : Prop :=
-  ~ SameCands g k interned glyphs.
-(** its executable form (used by the correspondence run) *)
-Definition inclb (l1 l2 : list name) : bool := forallb (fun c => memb c l2) l1.
-Definition same_candsb (g : groups) (k : kerning) (a b : list name) : bool :=
-  inclb (cands1 g k a) (cands1 g k b) && inclb (cands1 g k b) (cands1 g k a) &&
-  inclb (cands2 g k a) (cands2 g k b) && inclb (cands2 g k b) (cands2 g k a).
+(** the kerning is a map of maps (type invariant of [BTreeMap<Name, BTreeMap<Name, f64>>]) *)
+Definition wf_kerning (k : kerning) : Prop :=
+  NoDup (keys k) /\ forall e, In e k -> NoDup (keys (snd e)).
 
 (** ** call sites (src/font.rs) *)
 Inductive lerr : Type :=
@@ -321,8 +310,10 @@ Definition kern_or_empty (k : option kerning) : kerning :=
   match k with Some k => k | None => [] end.
 
 (** the groups/kerning part of Font::load_impl: [v3] = metainfo says format 3;
-    [g]/[k] = content of groups.plist / kerning.plist if present (and requested) *)
-Definition load_gk (v3 : bool) (g : option groups) (k : option kerning) (interned : list name)
+    [g]/[k] = content of groups.plist / kerning.plist if present (and requested);
+    [glyphs] = the glyph names (map keys) of all loaded layers (since 090c163; before: the
+    content of the name interner) *)
+Definition load_gk (v3 : bool) (g : option groups) (k : option kerning) (glyphs : list name)
   : result (groups * kerning) lerr :=
   match g with
   | None => Ok ([], kern_or_empty k)
@@ -332,7 +323,7 @@ Definition load_gk (v3 : bool) (g : option groups) (k : option kerning) (interne
       | Panic s => Panic s
       | Ok _ =>
           if v3 then Ok (g0, kern_or_empty k)
-          else match upconvert_kerning g0 (kern_or_empty k) interned with
+          else match upconvert_kerning g0 (kern_or_empty k) glyphs with
                | Ok (g', k') =>
                    match validate_groups g' with
                    | Ok _ => Ok (g', k')
